@@ -47,6 +47,8 @@ pub fn rhs<N: Scalar>(p: Problem, t: f64, y: &[N], out: &mut Vec<N>) {
             Problem::Riccati => N::from_real(t) - y[i] * y[i] + nx * N::from_real(0.1),
             Problem::Stiff => (y[i] - N::from_real(t.cos())) * N::from_real(-50.0),
             Problem::Quadratic => N::from_real(-2.0 * t + i as f64),
+            Problem::Growing => y[i] * N::from_real(1.5),
+            Problem::Oscillating => N::from_real((10.0 * t + i as f64).cos()),
         };
         out.push(v);
     }
